@@ -73,28 +73,44 @@ func c17(r *engine.Report, p *engine.Program) {
 	r.Min("R1-close-owner", 10)
 	// broker: deliveries are awaited before the loop continues
 	if bs := p.Func("(*utils.Broker).start"); bs != nil {
-		var gos, waits []ssa.Instruction
-		var sel ssa.Instruction
-		for _, b := range bs.Blocks {
-			for _, in := range b.Instrs {
-				switch x := in.(type) {
-				case *ssa.Go:
-					gos = append(gos, in)
-				case ssa.CallInstruction:
-					if engine.IsCallTo(x.Common(), "(*sync.WaitGroup).Wait") {
-						waits = append(waits, in)
-					}
-				case *ssa.Select:
-					if x.Blocking {
-						sel = in
+		// the delivery goroutines are started in start itself or in a private helper it calls synchronously
+		cands := []*ssa.Function{bs}
+		for _, ci := range engine.CallsIn(bs) {
+			if _, isCall := ci.(*ssa.Call); !isCall {
+				continue
+			}
+			if c := ci.Common().StaticCallee(); c != nil && inPkg(c, "utils") && len(c.Blocks) > 0 && privateHelperOf(p, c, map[string]bool{"(*utils.Broker).start": true}) != "" {
+				cands = append(cands, c)
+			}
+		}
+		ok := false
+		nGo := 0
+		for _, f := range cands {
+			var gos, waits []ssa.Instruction
+			for _, b := range f.Blocks {
+				for _, in := range b.Instrs {
+					switch x := in.(type) {
+					case *ssa.Go:
+						gos = append(gos, in)
+					case ssa.CallInstruction:
+						if engine.IsCallTo(x.Common(), "(*sync.WaitGroup).Wait") {
+							waits = append(waits, in)
+						}
 					}
 				}
 			}
-		}
-		ok := len(gos) == 1 && len(waits) >= 1 && sel != nil
-		if ok {
-			ok = engine.Reach(bs, gos[0], nil, func(in ssa.Instruction) bool { return isOneOf(in, waits) }, func(in ssa.Instruction) bool { return in == sel }) == nil
-			// the delivery goroutine signals Done (deferred) on the same WaitGroup
+			nGo += len(gos)
+			if len(gos) != 1 || len(waits) == 0 {
+				continue
+			}
+			// from the go statement, neither a return of f nor a blocking select is reachable without Wait
+			escape := engine.Reach(f, gos[0], nil, func(in ssa.Instruction) bool { return isOneOf(in, waits) }, func(in ssa.Instruction) bool {
+				if sel, isSel := in.(*ssa.Select); isSel && sel.Blocking {
+					return true
+				}
+				_, isRet := in.(*ssa.Return)
+				return isRet
+			})
 			g := gos[0].(*ssa.Go)
 			done := false
 			for _, callee := range p.Callees(g) {
@@ -104,8 +120,9 @@ func c17(r *engine.Report, p *engine.Program) {
 					}
 				}
 			}
-			ok = ok && done
+			ok = escape == nil && done
 		}
+		ok = ok && nGo == 1
 		r.Check("R1-broker-wait", "(*utils.Broker).start: deliveries awaited before the next select", bs.Pos(), ok,
 			"after starting the delivery goroutines the broker cannot return to its select (where it closes subscriber channels) without wg.Wait(); each delivery defers wg.Done()",
 			"the broker can close a subscriber channel (unsubscribe/shutdown arm) while a delivery goroutine may still be sending on it: send on closed channel panics the process")
